@@ -27,7 +27,7 @@ const prop = "C15"
 
 func TestMain(m *testing.M) {
 	vkit.Rec(prop).SetLevel("exploration",
-		"one real InterceptingListener configured with an option slice of drawn length 0-4 and SPARE CAPACITY 0-8 (as an application building it with append would), 2-8 goroutines calling Accept concurrently, and waves of 4-24 clients released together behind a barrier: honest authentications with per-client state and extra protocols, activation-token enrolments whose tokens carry distinct state, node-led fetches by authorized and unauthorized nodes, and rejected clients (forged nonce signature, foreign certificate). Built with -race. Oracle: the race detector reports nothing, and per connection the outcome equals what the model says for that client alone (accepted/rejected, reported state and protocol list are its own, the node record created by a token enrolment carries exactly that token's state, no other record changed). Non-trivial = spare capacity >=1, >=2 accepting goroutines and >=2 client kinds in a wave; distinct = (option slice shape, acceptors, wave composition).")
+		"one real InterceptingListener configured with an option slice of drawn length 0-11 and SPARE CAPACITY 0-8 (as an application building it with append would), 2-8 goroutines calling Accept concurrently, and waves of 4-24 clients released together behind a barrier: honest authentications with per-client state and extra protocols, activation-token enrolments whose tokens carry distinct state, node-led fetches by authorized and unauthorized nodes, and rejected clients (forged nonce signature, foreign certificate). Built with -race. Oracle: the race detector reports nothing, and per connection the outcome equals what the model says for that client alone (accepted/rejected, reported state and protocol list are its own, the node record created by a token enrolment carries exactly that token's state, no other record changed). Non-trivial = spare capacity >=1, >=2 accepting goroutines and >=2 client kinds in a wave; distinct = (option slice shape, acceptors, wave composition).")
 	vkit.Rec(prop).Assume("the harness owns which clients start together, not the interleaving inside the listener; unsynchronised accesses are caught by the race detector independent of timing")
 	vkit.Main(m)
 }
@@ -60,13 +60,15 @@ func TestProp_ConcurrentHandshakes(t *testing.T) {
 		w := vkit.NewWorld(vkit.WorldConfig{StorageWrapper: wrapper})
 		defer w.Close()
 		// the application's option slice
-		nOpt := rapid.IntRange(0, 4).Draw(t, "optionCount")
+		nOpt := rapid.IntRange(0, 10).Draw(t, "optionCount")
 		spare := rapid.IntRange(0, 8).Draw(t, "spareCapacity")
 		pool := []nodeenrollment.Option{nodeenrollment.WithLogger(hclog.NewNullLogger()), nodeenrollment.WithRandomReader(rand.Reader), nodeenrollment.WithNotBeforeClockSkew(nodeenrollment.DefaultNotBeforeClockSkewDuration), nodeenrollment.WithNotAfterClockSkew(nodeenrollment.DefaultNotAfterClockSkewDuration)}
 		base := w.O() // storage wrapper, when there is one, must always be present
 		opts := make([]nodeenrollment.Option, 0, len(base)+nOpt+spare)
 		opts = append(opts, base...)
-		opts = append(opts, pool[:nOpt]...)
+		for i := 0; i < nOpt; i++ {
+			opts = append(opts, pool[i%len(pool)])
+		}
 		acceptors := rapid.IntRange(2, 8).Draw(t, "acceptors")
 		rig := vkit.NewRig(w, vkit.RigConfig{Options: opts, Acceptors: acceptors})
 		defer rig.Close()
